@@ -1,15 +1,17 @@
 ------------------------------ MODULE FsTreeGen ------------------------------
 (* B1/B3 generator for C14: TLC enumerates (Mode "enum": breadth-first, every operation     *)
-(* sequence of length Depth from every initial tree) or samples (Mode "sim": tlc -simulate,  *)
-(* one random operation per step) operation sequences over the small universe                *)
+(* sequence of length Depth from every initial tree) or expands (Mode "picks": one sequence  *)
+(* per line of the ndjson file IOEnv.PICKS = {"init":k,"picks":[[x1,x2,x3,x4],..]}, the      *)
+(* seeded random numbers are decoded into operations against the CURRENT model tree, so     *)
+(* never into one that would block on a fifo) operation sequences over the small universe    *)
 (* names {a,b,c}, prior states of the target "a" in {absent, short file, long file, empty    *)
 (* dir, non-empty dir, link to dir, link to file, dangling link}, path spellings             *)
 (* {a/b, a//b, a/b/, ./a/b, /a/b}.  The model state (tree) is advanced with FsTree!Model so  *)
 (* that later operations of a sequence are chosen against the tree the earlier ones leave.   *)
 (* Output: <<"I", json>> one line per initial tree, <<"P", json>> one line per sequence.     *)
-EXTENDS FsTree, Json, SequencesExt
+EXTENDS FsTree, Json, IOUtils, SequencesExt
 CONSTANTS Mode, Depth, OpSet        \* OpSet: "all" | "core" (fewer spellings, for Depth >= 2)
-VARIABLES iid, tree, hist
+VARIABLES iid, tree, hist, cid
 
 S == Small(<<1, 2>>)
 L == Small(<<3, 4, 5, 6, 7>>)
@@ -65,17 +67,35 @@ Ops(t) == {o \in {Op1(op, p) : op \in Unary, p \in Targets}
                  \cup {Op2(op, p, q) : op \in {"copy", "rename"}, p \in Sources, q \in Targets} :
               ~Blocks(t, o) /\ ~(o.op = "copy" /\ CopySameNode(t, o.p, o.q))}
 
-Init == /\ iid \in 1..Len(Inits)
+Picks == IF Mode = "picks" THEN ndJsonDeserialize(IOEnv.PICKS) ELSE <<>>
+KindSeq   == <<"read", "create_dir", "create_dir_all", "remove_dir_all", "remove_file", "remove_dir", "exists",
+               "metadata", "read_dir", "write", "owrite_c", "owrite_a", "owrite_x", "owrite_t", "owrite_p",
+               "copy", "rename", "write", "create_dir_all", "remove_dir_all", "copy", "rename">>
+TargetSeq == SetToSeq(Targets)
+SourceSeq == SetToSeq(Sources)
+At(sq, x) == sq[(x % Len(sq)) + 1]
+Decode(t, x) ==
+    LET k == At(KindSeq, x[1])
+        o == IF k \in Unary THEN Op1(k, At(TargetSeq, x[2]))
+             ELSE IF k \in {"copy", "rename"} THEN Op2(k, At(SourceSeq, x[2]), At(TargetSeq, x[3]))
+             ELSE OpC(k, At(TargetSeq, x[2]), At(<<S, M>>, x[4]))
+    IN IF Blocks(t, o) \/ (o.op = "copy" /\ CopySameNode(t, o.p, o.q)) THEN Op1("exists", o.p) ELSE o
+
+Init == /\ IF Mode = "picks" THEN cid \in 1..Len(Picks) /\ iid = Picks[cid].init
+                              ELSE cid = 0 /\ iid \in 1..Len(Inits)
         /\ tree = Inits[iid]
         /\ hist = <<>>
-Next == /\ Len(hist) < Depth
-        /\ IF Mode = "sim"
-           THEN LET o == RandomElement(Ops(tree)) IN hist' = Append(hist, o) /\ tree' = Model(tree, o)
-           ELSE \E o \in Ops(tree) : hist' = Append(hist, o) /\ tree' = Model(tree, o)
-        /\ UNCHANGED iid
+Next == /\ IF Mode = "picks"
+           THEN /\ Len(hist) < Len(Picks[cid].picks)
+                /\ LET o == Decode(tree, Picks[cid].picks[Len(hist) + 1]) IN
+                   hist' = Append(hist, o) /\ tree' = Model(tree, o)
+           ELSE /\ Len(hist) < Depth
+                /\ \E o \in Ops(tree) : hist' = Append(hist, o) /\ tree' = Model(tree, o)
+        /\ UNCHANGED <<iid, cid>>
 EmitInits == PrintT(<<"I", ToJson([trees |-> [k \in 1..Len(Inits) |-> TreeList(Inits[k])]])>>)
 ASSUME EmitInits
-Emit == Len(hist) = Depth => PrintT(<<"P", ToJson([init |-> iid, ops |-> hist])>>)
+Emit == Len(hist) = (IF Mode = "picks" THEN Len(Picks[cid].picks) ELSE Depth)
+           => PrintT(<<"P", ToJson([init |-> iid, ops |-> hist])>>)
 \* the reference semantics keeps trees well-formed (checked on every generated state)
 Sane == WellFormed(tree)
 =============================================================================
